@@ -114,6 +114,7 @@ func c12Alias(c *Ctx, cs *h.Case, d []byte, buf *[]byte) {
 // C12: Decode* store only on success; null leaves the target alone.
 func RunC12(c *Ctx) {
 	scratch := dirty(16, 3)
+	bigScratch := make([]byte, 0, 128<<10)
 	var aliasBuf []byte
 	check := func(cs *h.Case) {
 		d := cs.Input
@@ -133,6 +134,12 @@ func RunC12(c *Ctx) {
 			func(b []byte) (string, int, error) { return rjson.ReadString(b, nil) },
 			func(b []byte, v *string) (int, error) { return rjson.DecodeString(b, v, &scratch) },
 			[2]string{"sentinel-two", "x"}, eqc[string], rawStringTargets)
+		// a scratch the caller pre-sized generously (seeded change C12r6-m2: a retention cap above
+		// 64 KiB clears the local scratch before the value is stored)
+		decodeCheck(c, cs, "String(128 KiB scratch)", d,
+			func(b []byte) (string, int, error) { return rjson.ReadString(b, nil) },
+			func(b []byte, v *string) (int, error) { return rjson.DecodeString(b, v, &bigScratch) },
+			[2]string{"sentinel-three", "y"}, eqc[string])
 		c12Alias(c, cs, d, &aliasBuf)
 		if c.Rec.WantSample() && c.Rec.R.Cases%5003 == 1 {
 			t := int64(-5)
@@ -179,6 +186,7 @@ func RunC12(c *Ctx) {
 	workload.W6Ints(win, nr, c.Seed, sink)
 	workload.W6Special(sink)
 	workload.W6Exponents(3, c.Seed, sink)
+	workload.W5([]int{3000, 70000}, sink) // long tokens: size thresholds of scratch handling
 	if c.Thorough() {
 		workload.W7Generated(300000, c.Seed, sink)
 	} else {
